@@ -160,6 +160,22 @@ class AbstractFn(Sym):
         return f'AbstractFn<{self.name}>'
 
 
+def _c_normalize_space(it, args, kwargs, node):
+    """wn.lmf._normalize_space(text): white-space normalisation of element text = the uninterpreted function
+    str_wsnorm of the argument (the same symbol ' '.join(s.split()) is mapped to); its definition - XML white space
+    only - is checked by a bounded stand-in in C20."""
+    from vc.pyvc import builtins_sym as _B
+    x = args[0]
+    if isinstance(x, str):
+        from vc.pyvc.values import lift as _lift
+        x = _lift(x, 'str')
+    if not isinstance(x, SV):
+        raise Unsupported('_normalize_space of a non-string value')
+    return SV('str', _B.uf('str_wsnorm', _B.UStr, _B.UStr)(x.z))
+
+
+DEFAULT_CONTRACTS = {'wn.lmf._normalize_space': _c_normalize_space}
+
 INTERPRETED: set = set()      # qualified names of the real functions executed symbolically in this process
 
 
@@ -435,6 +451,8 @@ class Interp:
             qn = self.qualname(f)
             if qn in self.contracts:
                 return self.contracts[qn]
+            if qn in DEFAULT_CONTRACTS:
+                return DEFAULT_CONTRACTS[qn]
         return None
 
     def call(self, f, args: list, kwargs: dict, node=None):
